@@ -596,11 +596,17 @@ econf_err econf_writeFile(econf_file *key_file, const char *save_to_dir,
   }
 
   // Write to file
+  // Entries without a group have to be written first. Otherwise they would
+  // belong to the group written before them while reading the file again.
+  const char *last_group = NULL;
+  for (int nogroup = 1; nogroup >= 0; nogroup--)
   for (size_t i = 0; i < key_file->length; i++) {
+    if ((strcmp(key_file->file_entry[i].group, KEY_FILE_NULL_VALUE) == 0) != nogroup)
+      continue;
     // Writing group
-    if (!i || strcmp(key_file->file_entry[i - 1].group,
+    if (last_group == NULL || strcmp(last_group,
                      key_file->file_entry[i].group)) {
-      if (i)
+      if (last_group != NULL)
         fprintf(kf, "\n");
       if (strcmp(key_file->file_entry[i].group, KEY_FILE_NULL_VALUE)) {
 	char *group = addbrackets(key_file->file_entry[i].group);
@@ -608,6 +614,7 @@ econf_err econf_writeFile(econf_file *key_file, const char *save_to_dir,
         free(group);
       }
     }
+    last_group = key_file->file_entry[i].group;
 
     // Writing heading comments
     if (key_file->file_entry[i].comment_before_key &&
